@@ -6,7 +6,7 @@ import (
 
 // mechAPI projects an executed api trace onto the record SearchTrace.tla reads: the problem the solver
 // was built on (the dump of the parsed problem), the reply of Solve and the hook events of that call.
-// Eligible: a history that is exactly one Solve on a problem that is not decided at parse time, default
+// Eligible: a history that is exactly one Solve, or rounds of Assume + Solve, on a problem that is not decided at parse time, default
 // strategy (no cutting planes), complete event list, no assumption / append / enumeration events.
 // Nothing is computed here: fields are selected.
 func mechAPI(t core.Case) core.Case {
@@ -18,18 +18,42 @@ func mechAPI(t core.Case) core.Case {
 		return nil
 	}
 	es := evs(t)
-	if len(es) != 2 || s(es[0], "op") != "dump" || s(es[1], "op") != "solve" {
+	if len(es) < 2 || s(es[0], "op") != "dump" {
 		return nil
 	}
 	d, _ := es[0]["d"].(map[string]any)
 	if d == nil || s(d, "status") == "UNSAT" {
 		return nil
 	}
-	st := s(es[1], "status")
-	if st != "SAT" && st != "UNSAT" {
-		return nil
+	// either exactly one Solve, or rounds of Assume + Solve
+	rounds := len(es) > 2
+	var wb []any
+	sts := []string{}
+	st := ""
+	for i, e := range es[1:] {
+		switch s(e, "op") {
+		case "assume":
+			if !rounds || i%2 != 0 {
+				return nil
+			}
+		case "solve":
+			if rounds && i%2 != 1 {
+				return nil
+			}
+			st = s(e, "status")
+			if st != "SAT" && st != "UNSAT" {
+				return nil
+			}
+			sts = append(sts, st)
+			w, _ := e["wb"].([]any)
+			wb = append(wb, w...)
+		default:
+			return nil
+		}
 	}
-	wb, _ := es[1]["wb"].([]any)
+	if !rounds {
+		sts = []string{}
+	}
 	if len(wb) == 0 || len(wb) >= 20000 { // nothing recorded / the recorder's limit was reached
 		return nil
 	}
@@ -37,12 +61,16 @@ func mechAPI(t core.Case) core.Case {
 		em, _ := e.(map[string]any)
 		switch s(em, "k") {
 		case "assign", "prop", "conflict", "learn", "learn-empty", "backtrack", "restart", "reduce", "delete", "unsat", "solve-end":
+		case "assume":
+			if !rounds {
+				return nil
+			}
 		default:
 			return nil
 		}
 	}
-	if last, _ := wb[len(wb)-1].(map[string]any); s(last, "k") != "solve-end" {
+	if last, _ := wb[len(wb)-1].(map[string]any); !rounds && s(last, "k") != "solve-end" {
 		return nil
 	}
-	return core.Case{"id": t["id"], "n": d["n"], "units": d["units"], "cons": d["cons"], "status": st, "ev": wb}
+	return core.Case{"id": t["id"], "n": d["n"], "units": d["units"], "cons": d["cons"], "status": st, "sts": sts, "ev": wb}
 }
